@@ -73,23 +73,27 @@ macro_rules! impl_parse {
                 let mut $out = Self::default();
                 loop {
                     let key: syn::Ident = $input.call(syn::ext::IdentExt::parse_any)?;
+                    let unsupported = |x: &str| {
+                        if cfg!(not(feature = "no-serde-warnings")) {
+                            let tokens = crate::attr::skip_until_next_comma($input);
+
+                            crate::utils::warning::print_warning(
+                                "failed to parse serde attribute",
+                                format!("{x} {tokens}"),
+                                "ts-rs failed to parse this attribute. It will be ignored.",
+                            )
+                            .unwrap();
+                        } else {
+                            crate::attr::skip_until_next_comma($input);
+                        }
+                    };
                     match &*key.to_string() {
+                        // the `key(..)` form (`rename(serialize = "..")`, `bound(..)`, ..) is not
+                        // supported for any key; it must not make the whole attribute list fail
+                        x if $input.peek(syn::token::Paren) => unsupported(x),
                         $($k => $e,)*
                         #[allow(unreachable_patterns)]
-                        x => {
-                            if cfg!(not(feature = "no-serde-warnings")) {
-                                let tokens = crate::attr::skip_until_next_comma($input);
-
-                                crate::utils::warning::print_warning(
-                                    "failed to parse serde attribute",
-                                    format!("{x} {tokens}"),
-                                    "ts-rs failed to parse this attribute. It will be ignored.",
-                                )
-                                .unwrap();
-                            } else {
-                                crate::attr::skip_until_next_comma($input);
-                            }
-                        }
+                        x => unsupported(x),
                     }
 
                     if $input.is_empty() {
